@@ -21,6 +21,10 @@ def cubes(tier):
     return out
 
 
+def cubes_legacy(tier):
+    return [dict(link="copy")] if tier == "quick" else [dict(link=l) for l in ("copy", "hardlink", "symlink")]
+
+
 SMOKE = dict(c0=True, o1=0, o2=2, o3=1, s1=False, s2=True, s3=False, q1=True, q2=True)
 
 SPEC = Spec(
@@ -40,6 +44,12 @@ SPEC = Spec(
                   "index.build.build/build_entries, index.save.md5/_meta_matches, index.update.update, index.diff (meta_only)",
           stubs=("model filesystem with a logical clock", "SQLite behind HashesCache -> dict answering the three SQL statements it issues, enforcing "
                  "the scaled parameter limit", "diskcache links table -> dict")),
+        H("legacy-checkout", "vf.harness.c13_stale", "h_legacy", cubes_legacy, timeout={"quick": 200, "thorough": 600}, real=True,
+          bounds={"quick": "tree of two text files (CRLF / LF variants symbolic) staged into a legacy md5-dos2unix store sharing the state, loaded and "
+                           "checked out (relink symbolic); then a single or batched md5 query for either file", "thorough": "three link types"},
+          smoke=[{"args": dict(v0=False, v1=True, batched=True, kk=True, relink=False), "cube": {}}],
+          encodes="hashfile.load/Tree.load/from_list, checkout.checkout/_checkout/_checkout_file, State.save/save_many/get/get_many, hash_file, "
+                  "build._get_hashes/build", stubs=("model filesystem", "model hash-state tables")),
     ],
     assumptions=["every content mutation changes the file's size, modification time or inode relative to every state recorded earlier (as the property "
                  "states); inode numbers are not reused", "fsspec.utils.tokenize is a deterministic injective function of (ino, mtime, size)",
